@@ -18,7 +18,7 @@ use crate::props::Prop;
 pub const PROP: Prop = Prop {
     id: "C16",
     level: "exploration",
-    rule: "operation x length x shape x builder, one child process per case on a 2 MiB thread stack in the plain optimised profile: operations = parse from str/slice/reader, datum parse from reader (and from str at n <= 10^5), to_string, Display, to_writer, Cons::to_vec/into_vec/to_ref_vec, Value::to_vec/to_ref_vec, iter, list_iter, into_iter, get(n-1), [usize::MAX], is_list, is_dotted_list, clone, ==, drop, Datum clone/==/drop/list_iter/value conversion, serde to_value/from_value/to_string/from_str of Vec<u32>; lengths drawn log-uniformly from [2*10^5, 4*10^6] (two draws per operation in the quick tier, eight plus one 10^7 in the thorough tier); shapes proper, dotted and association list; a list spelled as a chain of n dotted pairs (must be refused by the nesting limit, in both APIs); clone_from into an existing long list (Cons and Value); comparisons of equal lists, of lists differing only at the end, at every position and at every second position; deserialisation of long inputs through a skipped unknown struct field, IgnoredAny, wrong-kind targets, a long vector and a long improper list; element kinds number, #nil, (), boolean, symbol, string, character, float, keyword, byte vector, empty vector and seven long runs of changing kind (drawn per case in the optimised profile, and ALL kinds under the element-touching operations drop, drop of a replaced tail, drop of a partly consumed into_iter, clone, ==, print, parse, parse failing at end of input with n elements collected, to_vec, Datum drop/clone/==/conversion in the unoptimised profile at 1-2*10^5 elements); builders parser, constructors and Serde. The child verifies its result against a model (length, last element, printed text). A child killed by a signal is a violation with signature op=<operation>. Every case is non-trivial: 2*10^5 elements is far beyond what per-element recursion survives on 2 MiB; distinct by (op, n, shape, builder)",
+    rule: "(rounds 6-7: size_hint, collect, extend, zip, last, nth, skip, step_by, fold, max_by_key on Cons::iter, list_iter and into_iter of a long list) operation x length x shape x builder, one child process per case on a 2 MiB thread stack in the plain optimised profile: operations = parse from str/slice/reader, datum parse from reader (and from str at n <= 10^5), to_string, Display, to_writer, Cons::to_vec/into_vec/to_ref_vec, Value::to_vec/to_ref_vec, iter, list_iter, into_iter, get(n-1), [usize::MAX], is_list, is_dotted_list, clone, ==, drop, Datum clone/==/drop/list_iter/value conversion, serde to_value/from_value/to_string/from_str of Vec<u32>; lengths drawn log-uniformly from [2*10^5, 4*10^6] (two draws per operation in the quick tier, eight plus one 10^7 in the thorough tier); shapes proper, dotted and association list; a list spelled as a chain of n dotted pairs (must be refused by the nesting limit, in both APIs); clone_from into an existing long list (Cons and Value); comparisons of equal lists, of lists differing only at the end, at every position and at every second position; deserialisation of long inputs through a skipped unknown struct field, IgnoredAny, wrong-kind targets, a long vector and a long improper list; element kinds number, #nil, (), boolean, symbol, string, character, float, keyword, byte vector, empty vector and seven long runs of changing kind (drawn per case in the optimised profile, and ALL kinds under the element-touching operations drop, drop of a replaced tail, drop of a partly consumed into_iter, clone, ==, print, parse, parse failing at end of input with n elements collected, to_vec, Datum drop/clone/==/conversion in the unoptimised profile at 1-2*10^5 elements); builders parser, constructors and Serde. The child verifies its result against a model (length, last element, printed text). A child killed by a signal is a violation with signature op=<operation>. Every case is non-trivial: 2*10^5 elements is far beyond what per-element recursion survives on 2 MiB; distinct by (op, n, shape, builder)",
     assumptions: &[
         "stack independence is shown for the sampled lengths, on this platform, for the optimised (release-like) profile without debug assertions: frame sizes and tail-call elimination are compiler artefacts",
         "a watchdog expiry (120 s) is reported as inconclusive, never as a violation",
